@@ -1,5 +1,5 @@
 ----------------------------- MODULE P2PWire_MC -----------------------------
-EXTENDS P2PWire, Json
+EXTENDS P2PWire, Json, P2PWire_Extra
 Edge == PrintT(<<"EDGE", ToJson([from |-> State, act |-> act', to |-> State'])>>)
 InitOut == (TLCGet("level") = 1) => PrintT(<<"INIT", ToJson(State)>>)
 =============================================================================
